@@ -9,6 +9,9 @@
  *                                      after the last line every request fails (the horizon)
  *                      "stream:<seed>[:<fail_at>[:once]]"  request k (0-based) is answered with bytes derived from (seed, k);
  *                                      request number <fail_at> and all later ones fail (with ":once": only that one)
+ *                      "cycle:<hex>[:<fail_at>[:once]]"  one continuous byte stream that cycles through <hex> and continues across
+ *                                      requests (however many requests an implementation makes, the entropy is a prefix
+ *                                      of the stream); request number <fail_at> fails (and all later ones unless ":once")
  *   HDW_ENTROPY_LOG    file; one line per scripted request: "<k> <len> <entry point> <ok|fail> <hex of the bytes returned>"
  */
 #define _GNU_SOURCE
@@ -25,13 +28,15 @@
 #include <unistd.h>
 
 static pthread_mutex_t mu = PTHREAD_MUTEX_INITIALIZER;
-static int inited = 0, mode = 0; /* 0 passthrough, 1 list, 2 stream */
+static int inited = 0, mode = 0; /* 0 passthrough, 1 list, 2 stream, 3 cycle */
+static unsigned char *cycle = NULL; static size_t cycle_n = 0, cycle_pos = 0;
 static char **list_lines = NULL; static long list_n = 0;
 static uint64_t stream_seed = 0; static long fail_at = -1; static int fail_once = 0;
 static long next_req = 0;
 static FILE *logf = NULL;
 static int urandom_fds[64]; static int n_urandom = 0;
 
+static int hexval(char c) { if (c >= '0' && c <= '9') return c - '0'; if (c >= 'a' && c <= 'f') return c - 'a' + 10; if (c >= 'A' && c <= 'F') return c - 'A' + 10; return -1; }
 static uint64_t mix(uint64_t seed, uint64_t a) {
     uint64_t z = seed + a * 0x9E3779B97F4A7C15ULL + 0x9E3779B97F4A7C15ULL;
     z = (z ^ (z >> 30)) * 0xBF58476D1CE4E5B9ULL; z = (z ^ (z >> 27)) * 0x94D049BB133111EBULL; return z ^ (z >> 31);
@@ -47,11 +52,14 @@ static void init_locked(void) {
         while ((n = getline(&line, &cap, f)) >= 0) { while (n > 0 && (line[n - 1] == '\n' || line[n - 1] == '\r')) line[--n] = 0; if (n == 0) continue;
             list_lines = realloc(list_lines, sizeof(char *) * (list_n + 1)); list_lines[list_n++] = strdup(line); }
         free(line); fclose(f);
+    } else if (!strncmp(m, "cycle:", 6)) {
+        mode = 3; const char *h = m + 6; size_t n = 0; while (hexval(h[n]) >= 0) n++;
+        cycle_n = n / 2; cycle = malloc(cycle_n ? cycle_n : 1); for (size_t i = 0; i < cycle_n; i++) cycle[i] = (unsigned char)(hexval(h[2 * i]) * 16 + hexval(h[2 * i + 1]));
+        const char *end = h + n; if (*end == ':') { char *e2; fail_at = strtol(end + 1, &e2, 10); if (!strcmp(e2, ":once")) fail_once = 1; }
     } else if (!strncmp(m, "stream:", 7)) {
         mode = 2; char *end; stream_seed = strtoull(m + 7, &end, 10); if (*end == ':') { fail_at = strtol(end + 1, &end, 10); if (!strcmp(end, ":once")) fail_once = 1; }
     }
 }
-static int hexval(char c) { if (c >= '0' && c <= '9') return c - '0'; if (c >= 'a' && c <= 'f') return c - 'a' + 10; if (c >= 'A' && c <= 'F') return c - 'A' + 10; return -1; }
 /* returns 0 ok, -1 fail; 1 = not scripted (passthrough) */
 static int scripted(unsigned char *buf, size_t len, const char *entry) {
     pthread_mutex_lock(&mu); init_locked();
@@ -60,6 +68,9 @@ static int scripted(unsigned char *buf, size_t len, const char *entry) {
     if (mode == 1) {
         if (k >= list_n || !strncmp(list_lines[k], "fail", 4)) ok = 0;
         else { const char *h = list_lines[k] + 3; size_t hl = strlen(h) / 2; if (hl == 0) { memset(buf, 0, len); } else for (size_t i = 0; i < len; i++) { size_t j = i % hl; buf[i] = (unsigned char)(hexval(h[2 * j]) * 16 + hexval(h[2 * j + 1])); } }
+    } else if (mode == 3) {
+        if (fail_at >= 0 && (fail_once ? k == fail_at : k >= fail_at)) ok = 0;
+        else for (size_t i = 0; i < len; i++) { buf[i] = cycle_n ? cycle[cycle_pos % cycle_n] : 0; cycle_pos++; }
     } else {
         if (fail_at >= 0 && (fail_once ? k == fail_at : k >= fail_at)) ok = 0;
         else { uint64_t base = mix(stream_seed, (uint64_t)k); for (size_t i = 0; i < len; i++) buf[i] = (unsigned char)(mix(base, i / 8) >> (8 * (i % 8))); }
